@@ -319,3 +319,42 @@ func registerSDK2(P *Program) {
 		panic(unsupported("BigEndianToUint64"))
 	})
 }
+
+// generated protobuf methods (*T).Marshal / Unmarshal / Size as typed blobs --------------------------------
+
+func pbKind(it *Interp, p *Ptr) string {
+	if sv, ok := it.load(p).(*StructV); ok && sv.T != nil {
+		return "proto:*" + sv.T.String()
+	}
+	return "proto:?"
+}
+
+func pbMarshal(it *Interp, a []Value) Value {
+	p := a[0].(*Ptr)
+	if p == nil {
+		it.nilDeref()
+	}
+	return Tuple{&BlobV{Kind: pbKind(it, p), V: it.deepClone(it.load(p), map[*Cell]*Cell{})}, (*ErrV)(nil)}
+}
+
+func pbUnmarshal(it *Interp, a []Value) Value {
+	p := a[0].(*Ptr)
+	switch bz := a[1].(type) {
+	case *BlobV:
+		if bz.Kind != pbKind(it, p) {
+			return &ErrV{Root: "proto/unmarshal", Msg: "blob of type " + bz.Kind + " decoded as " + pbKind(it, p)}
+		}
+		it.storeTo(p, it.deepClone(bz.V, map[*Cell]*Cell{}))
+		return (*ErrV)(nil)
+	case *SliceV:
+		if bz.Len == 0 {
+			return (*ErrV)(nil)
+		}
+	}
+	panic(unsupported("proto Unmarshal of concrete bytes"))
+}
+
+func pbSize(it *Interp, a []Value) Value {
+	p := a[0].(*Ptr)
+	return it.blobLen(&BlobV{Kind: pbKind(it, p), V: nil})
+}
